@@ -73,6 +73,7 @@ def shards(tier, seed):
     out.append(("trailing",))
     out.append(("wsgi_seq",))
     out += [("wsgi_threads", n, t) for n in (1, 2, 3) for t in (1, 2)]
+    out += [("wsgi_threads", n, t, 2.5) for n in (2, 3) for t in (0, 1)]  # a server that needs 2.5 ping intervals to write out each item
     out += [("asgi_seq", k) for k in range(8)]
     return out
 
@@ -147,7 +148,7 @@ def judge_stream(events, body, charset):
     return None
 
 
-def wsgi_threads(r, n, timeouts, tier):
+def wsgi_threads(r, n, timeouts, tier, hold=0.0):
     """WSGI event stream on controlled threads (engine of C06): every schedule within the preemption bound incl. ping timeouts;
     the stream is read to its end and parsed: one block per event, in order, pings invisible."""
     from . import c06
@@ -165,7 +166,10 @@ def wsgi_threads(r, n, timeouts, tier):
         outcomes.add((npings, o["deadlock"]))
         if npings:
             r.count("distinct_nontrivial")
-        w = {"kind": "wsgi_threads", "n": n, "timeouts": timeouts, "schedule": list(x.choices)}
+        w = {"kind": "wsgi_threads", "n": n, "timeouts": timeouts, "hold": hold, "schedule": list(x.choices)}
+        if o["server_exc"]:
+            r.violation("wsgi-threads:exception", w, f"WSGI SendEventResponse over {n} events (server holds each item for {hold} ping intervals), schedule {o['trace'][-12:]}: the response raised {o['server_exc']}")
+            return
         if o["deadlock"] or o["watchdog"] or o["livelock"]:
             r.violation("wsgi-threads:stuck", w, f"WSGI SendEventResponse over {n} events, schedule {o['trace'][-12:]}: stuck (see C06)")
             return
@@ -173,8 +177,8 @@ def wsgi_threads(r, n, timeouts, tier):
         if p:
             r.violation("wsgi-threads:" + p[0], w, f"WSGI SendEventResponse over {n} events with {npings} ping(s), schedule {o['trace'][-12:]}: {p[1]}")
 
-    dfs(lambda prefix: c06.run_wsgi_sse(prefix, n, None, None, False, timeouts), on_exec, bound=1 if tier == "quick" else 2)
-    if n == 1 and timeouts == 1:
+    dfs(lambda prefix: c06.run_wsgi_sse(prefix, n, None, None, False, timeouts, hold=hold), on_exec, bound=1 if tier == "quick" else 2)
+    if n == 1 and timeouts == 1 and not hold:
         # one response object (re-iterable source) serving two overlapping requests: each client gets the complete stream
         def on_shared(x):
             r.count("evaluations")
@@ -299,7 +303,7 @@ def run_shard(desc, tier):
         r.count("states", 1)
         r.count("transitions", int(r.c["evaluations"]))
     elif desc[0] == "wsgi_threads":
-        wsgi_threads(r, desc[1], desc[2], tier)
+        wsgi_threads(r, desc[1], desc[2], tier, *(desc[3:4]))
     elif desc[0] == "wsgi_seq":
         wsgi_sequences(r)
         r.count("states", 1)
@@ -330,7 +334,7 @@ def replay(w):
         return bool(any(probs) or x.obs["deadlock"]), {"problems": probs, "deadlock": x.obs["deadlock"]}
     elif w["kind"] == "wsgi_threads":
         from . import c06
-        x = c06.run_wsgi_sse(list(w["schedule"]), w["n"], None, None, False, w["timeouts"])
+        x = c06.run_wsgi_sse(list(w["schedule"]), w["n"], None, None, False, w["timeouts"], hold=w.get("hold", 0.0))
         p = judge_stream([{"data": str(i)} for i in range(w["n"])], b"".join(x.obs["got"]), "utf-8")
         return bool(p or x.obs["deadlock"]), {"problem": p, "deadlock": x.obs["deadlock"]}
     elif w["kind"] == "wsgi_seq":
